@@ -261,3 +261,44 @@ fn u256_get_at_len(n: u8) -> felt252 {
     let res: felt252 = match sp.get((n % 4).into()) { Some(x) => (*x.unbox()).low.into(), None => 999 };
     res * 2 + (*arr.at(arr.len() - 1)).low.into()
 }
+
+// Pops wider than 16 cells (the CASM of multi_pop switches its range proof on the popped size), with
+// readable data behind the span.
+fn multi_pop_front17_behind(n: u8) -> felt252 {
+    let mut arr: Array<felt252> = array![];
+    let mut i: u8 = 0;
+    while i != 12 + n % 8 { arr.append(10 + i.into()); i += 1; }
+    let mut sp = arr.span();
+    let mut j: u8 = 0;
+    while j != 8 { arr.append(9000 + j.into()); j += 1; }
+    let res = match sp.multi_pop_front::<17>() {
+        Some(b) => { let a: [felt252; 17] = (*b).unbox(); let s = a.span(); *s.at(0) + 2 * *s.at(16) + sp.len().into() * 100 },
+        None => 61 + sp.len().into(),
+    };
+    res * 2 + *arr.at(arr.len() - 1)
+}
+fn multi_pop_back17_behind(n: u8) -> felt252 {
+    let mut arr: Array<felt252> = array![];
+    let mut i: u8 = 0;
+    while i != 12 + n % 8 { arr.append(10 + i.into()); i += 1; }
+    let mut sp = arr.span();
+    arr.append(9001);
+    let res = match sp.multi_pop_back::<17>() {
+        Some(b) => { let a: [felt252; 17] = (*b).unbox(); let s = a.span(); *s.at(0) + 2 * *s.at(16) + sp.len().into() * 100 },
+        None => 62 + sp.len().into(),
+    };
+    res * 2 + *arr.at(arr.len() - 1)
+}
+fn multi_pop_front_u256x9_behind(n: u8) -> felt252 {
+    let mut arr: Array<u256> = array![];
+    let mut i: u8 = 0;
+    while i != 6 + n % 5 { arr.append(u256 { low: 10 + i.into(), high: 3 }); i += 1; }
+    let mut sp = arr.span();
+    let mut j: u8 = 0;
+    while j != 4 { arr.append(u256 { low: 9000 + j.into(), high: 4 }); j += 1; }
+    let res: felt252 = match sp.multi_pop_front::<9>() {
+        Some(b) => { let a: [u256; 9] = (*b).unbox(); let s = a.span(); (*s.at(0)).low.into() + 2 * (*s.at(8)).high.into() + sp.len().into() * 100 },
+        None => 63 + sp.len().into(),
+    };
+    res * 2 + (*arr.at(arr.len() - 1)).low.into()
+}
